@@ -15,7 +15,7 @@ def check(pid):
     return deco
 
 
-CLI_PIDS = ("C01", "C02", "C05", "C06", "C07", "C08", "C09", "C15", "C16", "C17", "C20")
+CLI_PIDS = ("C01", "C02", "C05", "C06", "C07", "C08", "C09", "C14", "C15", "C16", "C17", "C20")
 
 
 def cli_lines(rng, lines, k):
@@ -51,6 +51,8 @@ def cli_lines(rng, lines, k):
         elif op == "equimod" and tk[2] == "0":
             out.append(l)
         elif op == "mat" and tk[1] in ("transpose", "support", "ssupport", "copy") and tk[2] in ("c", "i"):
+            out.append(l)
+        elif op == "repmat" and len(tk) < 400:
             out.append(l)
     if len(out) > k:
         out = rng.sample(out, k)
